@@ -168,6 +168,16 @@ class DStore(object):
                     raise OSError(errno.ENOSPC, 'No space left on device')
                 return real_aio(*a, **kw)
             ds.aio_write = failing
+        elif kind and kind.startswith('short'):
+            # the k-th block is written only in part (the kernel reports a short count, no error): the rest must follow
+            k = int(kind[5:])
+
+            def shortw(fd, piece, offset, callback):
+                count[0] += 1
+                if count[0] == k and len(piece) > 1:
+                    piece = piece[:len(piece) // 2]
+                return real_aio(fd, piece, offset, callback)
+            ds.aio_write = shortw
         elif kind and kind.startswith('rename'):
             k = int(kind[6:])
 
@@ -406,7 +416,7 @@ def main():
     for policies in ([], ['RS']):
         for nrcpt in (1, 3):
             k = nenv(policies, nrcpt)
-            for fail in [{}] + [{i: kind} for i in sorted({1, k}) for kind in ('nometa', 'noenv', 'enospc1', 'enospc2', 'rename1', 'rename2')]:
+            for fail in [{}] + [{i: kind} for i in sorted({1, k}) for kind in ('nometa', 'noenv', 'enospc1', 'enospc2', 'rename1', 'rename2', 'short1', 'short2')]:
                 dn += 1
                 cases.append(dict(proxy=False, policies=policies, nrcpt=nrcpt, nenv=k, fail=fail, slow=[], relay='none', disk=dn, realtime=True))
     # the proxying queue over the repository's own pipe relay: delivery programs that exit 0, exit 75, print 5.x.x, or are killed
